@@ -130,6 +130,39 @@ theorem zeros_differ_by_count (r : ResRe K) :
     simp only [clRedchisq, guardedDiv, h0, and_false, if_false, reRchisq, reNdof, Bool.false_eq_true, hs]
     field_simp
 
+/-- **standard deviations**: the classic table shows the UNBIASED sample standard deviation (StatCalculator, 1/(n-1)), the
+    JAX statistics the population one (`jnp.std`, 1/n): on the same per-sample values `(n-1)·var_cl = n·var_re` -/
+theorem var_ddof_relation (xs : List K) (hn : 2 ≤ xs.length) :
+    ((xs.length - 1 : Nat) : K) * variance 1 xs = (xs.length : K) * variance 0 xs := by
+  have h1 : ((xs.length - 1 : Nat) : K) ≠ 0 := by
+    have : xs.length - 1 ≠ 0 := by omega
+    exact_mod_cast this
+  have h0 : (xs.length : K) ≠ 0 := by
+    have : xs.length ≠ 0 := by omega
+    exact_mod_cast this
+  simp only [variance, Nat.sub_zero]
+  field_simp
+
+/-- with a single sample the classic report has no standard deviation (StatCalculator raises, the table omits "± …") and
+    with two or more it is the unbiased variance of the per-sample values -/
+theorem cl_var_spec (samples : List (Res K)) :
+    (clReport samples).redchisqVar =
+      if samples.length < 2 then none else some (variance 1 (samples.map clRedchisq)) := rfl
+
+/-- classic vs JAX variance of the reduced χ² on clean real residuals -/
+theorem cl_re_var_on_clean_real (samples : List (ResRe K)) (hc : ∀ r ∈ samples, clean r ∧ r ≠ []) (hn : 2 ≤ samples.length) :
+    ∃ v, (clReport (samples.map (List.map some))).redchisqVar = some v ∧
+      ((samples.length - 1 : Nat) : K) * v = (samples.length : K) * (reReport false samples).rchisqVar := by
+  have hmap : (samples.map (List.map some)).map clRedchisq = samples.map (reRchisq false) := by
+    rw [List.map_map]
+    exact List.map_congr_left (fun r hr => (cl_eq_re_on_clean_real r (hc r hr).1 (hc r hr).2).1)
+  refine ⟨variance 1 (samples.map (reRchisq false)), ?_, ?_⟩
+  · simp only [clReport, List.length_map, hmap]
+    have : ¬ samples.length < 2 := by omega
+    simp [this]
+  · have := var_ddof_relation (samples.map (reRchisq false)) (by simpa using hn)
+    simpa [reReport] using this
+
 /-- non-vacuity (Rat): a sample with a NaN, an exact zero and two ordinary entries -/
 example : clRedchisq (K := Rat) [none, some ⟨0, 0⟩, some ⟨1, 0⟩, some ⟨3, 0⟩] = 5 ∧
     lsize (K := Rat) [none, some ⟨0, 0⟩, some ⟨1, 0⟩, some ⟨3, 0⟩] = 2 ∧
